@@ -273,6 +273,11 @@ PIPE_FAMILIES = [
     ('default-elec', lambda: geo.base_params(2, 1, 1)), ('heat-industrial', lambda: geo.base_params(1, 2, 9)),
     ('chiller', lambda: geo.base_params(2, 2, 5)), ('heatpump', lambda: geo.base_params(3, 2, 6)), ('district', lambda: geo.base_params(2, 2, 7, L=5)),
     ('cogen', lambda: geo.base_params(2, 31, 2)), ('flash', lambda: geo.base_params(1, 1, 4)),
+    # every user-fixable cost given: a bound must hold whatever else the file states (a value that "plays no role" is still out of range)
+    ('costs-given', lambda: {**geo.base_params(2, 1, 1), 'Reservoir Stimulation Capital Cost': 5, 'Exploration Capital Cost': 2.5,
+                             'Surface Plant Capital Cost': 40.5, 'Field Gathering System Capital Cost': 0.5, 'Wellfield O&M Cost': 1.5,
+                             'Surface Plant O&M Cost': 0.2, 'Water Cost': 0.25, 'Well Drilling and Completion Capital Cost': 6,
+                             'Injection Well Drilling and Completion Capital Cost': 6}),
 ]
 
 
@@ -314,8 +319,9 @@ def pipeline(chk: core.Check, ext, per_family):
         cands = [d for d in decls if d['class'] in classes and d['kind'] in ('floatParameter', 'intParameter')]
         chk.rng.shuffle(cands)
         # the parameters an ordinary input file sets are probed in every family; the others by a seeded sample
-        first = [d for d in cands if d['name'] in base]
-        rest = [d for d in cands if d['name'] not in base]
+        # … and so are the parameters whose name extends one the base sets (`<cost> Adjustment Factor` beside `<cost>`): related inputs
+        first = [d for d in cands if d['name'] in base or any(d['name'].startswith(b + ' ') for b in base)]
+        rest = [d for d in cands if d not in first]
         for d in first + rest[:per_family]:
             if d['kind'] == 'floatParameter':
                 probes = []
